@@ -129,6 +129,16 @@ def all_jobs():
                   props=['C01', 'C02', 'C03', 'C05', 'C09'], pretty='bloc::MemberSETExpression::value', canaries=['normal', 'exceptional'], unwind=2,
                   unwind_why='Value::deref_value() pointer chase; tuples hold no pointers (precondition), so one test of the loop condition is complete',
                   structs=DEFAULT_STRUCTS + [STD_STRING, VEC_CHAR, 'bloc::Collection', 'bloc::Tuple', 'bloc::Context', 'bloc::MemberSETExpression']))
+    mg = '_ZNK4bloc14ItemExpression5valueERNS_7ContextE'
+    J.append(dict(id='item_at', src='blocc/expression_item.cpp', contract='item_at.c', enforce=mg, roots=[mg], replace=list(MEMB_REPLACE), cut=list(MEMB_CUT),
+                  props=['C01', 'C02', 'C05', 'C09'], pretty='bloc::ItemExpression::value', canaries=['normal', 'exceptional'], unwind=2,
+                  unwind_why='Value::deref_value() pointer chase; tuples hold no pointers (precondition), so one test of the loop condition is complete',
+                  structs=DEFAULT_STRUCTS + [STD_STRING, VEC_CHAR, 'bloc::Tuple', 'bloc::Context', 'bloc::ItemExpression']))
+    mg = '_ZNK4bloc21MemberCOUNTExpression5valueERNS_7ContextE'
+    J.append(dict(id='member_count', src='blocc/member/member_count.cpp', contract='member_count.c', enforce=mg, roots=[mg], replace=list(MEMB_REPLACE), cut=list(MEMB_CUT),
+                  props=['C01', 'C02', 'C04', 'C05', 'C09', 'C10'], pretty='bloc::MemberCOUNTExpression::value', canaries=['normal', 'exceptional'], unwind=2,
+                  unwind_why='Value::deref_value() pointer chase (complete)',
+                  structs=DEFAULT_STRUCTS + [STD_STRING, VEC_CHAR, 'bloc::Collection', 'bloc::Tuple', 'bloc::Context', 'bloc::MemberCOUNTExpression']))
     mg = '_ZNK4bloc22MemberINSERTExpression5valueERNS_7ContextE'
     J.append(dict(id='member_insert', src='blocc/member/member_insert.cpp', contract='member_insert.c', enforce=mg, roots=[mg], replace=list(MEMB_REPLACE), cut=list(MEMB_CUT),
                   props=['C01', 'C02', 'C05', 'C09', 'C10'], pretty='bloc::MemberINSERTExpression::value', canaries=['normal', 'exceptional'], unwind=2,
@@ -436,6 +446,12 @@ def all_jobs():
                   props=['C01', 'C18'], pretty='CSVParser::serialize', canaries=['normal'], unwind=8, bounded_inputs=True,
                   unwind_why='rows of at most 2 fields of at most 2 bytes (every content, separator and quote character)', enums=[],
                   structs=['CSVParser', STD_STRING]))
+    mg = '_ZNK4bloc13TABExpression5valueERNS_7ContextE'
+    J.append(dict(id='builtin_tab', src='blocc/builtin/builtin_tab.cpp', contract='builtin_tab.c', enforce=mg, roots=[mg], replace=list(MEMB_REPLACE),
+                  cut=list(MEMB_CUT) + ['_ZN4bloc10CollectionC1ERKNS_4TypeE', '_ZN4bloc10CollectionC2ERKNS_4TypeE', '_ZN4bloc10CollectionC1ERKNS_9TupleDecl4DeclEh', '_ZN4bloc10CollectionC2ERKNS_9TupleDecl4DeclEh', '_ZN4bloc10CollectionD1Ev', '_ZN4bloc10CollectionD2Ev'],
+                  props=['C01', 'C02', 'C05', 'C09', 'C17'], pretty='bloc::TABExpression::value', canaries=['normal', 'exceptional'], unwind=4, bounded_inputs=True,
+                  unwind_why='a count of at most 2 elements (operand bound)',
+                  structs=DEFAULT_STRUCTS + [STD_STRING, VEC_CHAR, 'bloc::Collection', 'bloc::Tuple', 'bloc::Context', 'bloc::TABExpression']))
     # ---- generic builtin contracts (C01, C05): one job per builtin listed here ----
     for ent in BUILTINS_GENERIC:
         name, cls, nargs = ent[0], ent[1], ent[2]
